@@ -56,11 +56,11 @@ CLAIMED = {
     ),
     "C14": (
         "Coq proof (threshold theorems over the regenerated HAS_EXPIRED/grace constants with lia/nia; latch monotonicity and latest-wins by induction over arbitrary read/message sequences) + correspondence on real Message/_MessageDB objects + replay-gateway oracle",
-        "18 theorems in coq/props/C14.v about coq/model/M_Store.v and M_StoreDeferred.v (DEFERRED deletion: for ANY interleaving of arrivals, reads that find the held "
+        "20 theorems in coq/props/C14.v about coq/model/M_Store.v and M_StoreDeferred.v (DEFERRED deletion: for ANY interleaving of arrivals, reads that find the held "
         "message expired or live, and loop turns, what an entity holds for a code is the newest arrival, and the newest arrival is held unless a read found that very "
         "message expired -- C14_held_is_latest, C14_latest_never_lost, invariant by induction over event lists; the rule the code had before 71c64db, 'any message equal "
         "in content', is refuted with the history that lost the newest I|1F09; tied to the real _MessageDB._handle_msg / _msg_value_msg / call_soon / _delete_msg on a real "
-        "controller entity over random histories; the deferred deletion of an expired message removes THAT message and nothing else -- a sibling zone's or the controller's fresher message of the same code stays -- tied to _delete_msg on real controller / system / zone stores; = Message._expired with its cached fraction, _MessageDB._handle_msg, "
+        "controller entity over random histories; the deferred deletion of an expired message removes THAT message and nothing else -- a sibling zone's or the controller's fresher message of the same code stays -- tied to _delete_msg on real controller / system / zone stores; reading a zone out of an array payload merged from two packets takes, key by key, the LATER packet's element -- C14_merged_array_newest_wins, tied to the real _msg_value_msg(zone_idx=) over random arrays with a zone absent / once / twice; = Message._expired with its cached fraction, _MessageDB._handle_msg, "
         "_msg_value with the deferred delete): never expired before L, always after 2L+grace (for whatever HAS_EXPIRED/grace the source "
         "says now, provided 1 <= HAS_EXPIRED <= 2 -- itself a checked obligation), expiry never un-happens in any evaluation sequence "
         "even with a backwards clock, evaluation is total (zero countdown repaired), the stored message per code is the last relevant "
@@ -68,7 +68,7 @@ CLAIMED = {
         "Tie: real Message objects of 30 kinds under a controlled clock and real _handle_msg on random sequences compared with the "
         "model; end-to-end oracle on replay gateways (zones x array/single forms x clock gaps).",
         "Trusted: Coq kernel, harness; float division age/lifespan >= 2.0 argued exact (lifespans < 2^52 us) not proved. Modelled not "
-        "verified: the lifespan table (taken from the implementation as input), zone routing of array payloads (exercised by the oracle only).",
+        "verified: the lifespan table (taken from the implementation as input), zone routing of array payloads to zone entities (exercised by the oracle only; the element selection itself is modelled).",
         "6 (C14)",
     ),
     "C01": (
